@@ -13,7 +13,7 @@ import vlib
 
 PROFILES = {"pOk": corpus.OK_PROFILE, "pOk2": corpus.OK_PROFILE_NESTED, "pRego": corpus.REGO_ERROR_PROFILES[0]}
 PCLASS = {"pOk": "ok", "pOk2": "ok", "pRego": "regoError"}
-DOCS = {"dOk": c09.DOCS["fail3"], "dOk2": c09.DOCS["failNested"], "dNotJson": c09.DOCS["notJson"], "dPass": c09.DOCS["pass"]}
+DOCS = {"dOk": c09.DOCS["fail3"], "dOk2": c09.DOCS["failNested"], "dNotJson": c09.DOCS["notJsonLong"], "dPass": c09.DOCS["pass"]}
 DCLASS = {"dOk": "ok", "dOk2": "ok", "dNotJson": "notJson", "dPass": "ok"}
 
 
